@@ -21,8 +21,10 @@ UNIT = Agg("tuple", None, None, [])
 
 
 def inline(k):
-    """callee keys a rule using the store should let the interpreter inline: the Entry combinators"""
-    return k.startswith(ENT + "Entry::") or k.startswith("<" + ENT + "Entry")
+    """callee keys a rule using the store should let the interpreter inline: the Entry combinators, and the State sugar
+    that is more than a renamed accessor (best_individual / best_objective_value, decided by C01.R6)"""
+    return k.startswith(ENT + "Entry::") or k.startswith("<" + ENT + "Entry") or k.startswith("mahf::state::State::best_") \
+        or k.startswith("<mahf::state::common::BestIndividual")
 
 
 def shaped(F, ty, tag, heap=None):
